@@ -628,6 +628,9 @@ class PteraTransformer(NodeTransformer):
         new_body = []
 
         for external in sorted(self.external):
+            if not self.should_instrument(external):
+                # Leave the global variable as it is
+                continue
             new_body.extend(
                 self.make_interaction(
                     target=ast.Name(id=external, ctx=ast.Store()),
